@@ -251,7 +251,7 @@ func init() {
 		},
 		Cases:            func(tier string) int { return map[string]int{"quick": 256, "thorough": 4000}[tier] },
 		MinNontrivial:    func(tier string) int { return map[string]int{"quick": 100, "thorough": 1500}[tier] },
-		RequiredFeatures: func(string) []string { return []string{"waiting-newcomer", "newcomer-dealt-in", "addon-to-busted-player-between-hands"} },
+		RequiredFeatures: func(string) []string { return []string{"waiting-newcomer", "newcomer-dealt-in", "addon-to-busted-player-between-hands", "seated-in-by-auto-join-timer"} },
 		CaseTimeout:      180e9,
 		Run: func(c *h.Ctx) {
 			po := PlayOpts{
@@ -266,6 +266,7 @@ func init() {
 			}
 			tr := &c05Tracker{d: -1, s: -1, b: -1, misses: map[string]int{}, W: map[string]int{}, stale: map[string]bool{}}
 			gc := -1
+			lazyDone := false
 			mon := &PlayMon{
 				AfterOp: func(p *Play, op OpRec) {
 					if op.Kind == "addon" && op.Err == "" && op.WasBusted && op.Phase != "mid" {
@@ -285,6 +286,16 @@ func init() {
 				},
 				// a mid-hand re-buy of a busted bystander exercises "re-buyer on the same terms as a newcomer"
 				BeforeAct: func(p *Play, e *h.Ev, gp int, pid string) bool {
+					// one case in thirty-two: a newcomer reserves a seat and never joins; the engine seats him in by
+					// itself after 17 s (the hand is held still meanwhile) and from then on he is judged like anybody
+					if p.C.Case%32 == 9 && !lazyDone && p.HandNo >= 2 {
+						lazyDone = true
+						if free := p.SS.FreeSeats(); len(free) > 0 {
+							if _, ok := p.LazyBuyIn("mid", free[p.R().Intn(len(free))], p.Cfg.BB*40+40); ok {
+								p.C.Feature("seated-in-by-auto-join-timer")
+							}
+						}
+					}
 					if p.R().Intn(12) == 0 {
 						for _, ps := range e.T.State.PlayerStates {
 							if ps.Bankroll == 0 && !ps.IsParticipated {
